@@ -23,7 +23,7 @@ META = {
         "integer formats in use; _parse_socks_datagram returns None exactly for rsv/frag != 0 or an unknown address type; "
         "datagram_received dispatches exactly one packet with the right direction and addresses for a known far host or a "
         "SOCKS-framed datagram from the client IP, and for an unknown host or a non-SOCKS datagram dispatches nothing and "
-        "learns no route; handle_proxied_packet sends at most once (C07's obligations re-verified here). B (bounded): "
+        "learns no route; handle_proxied_packet sends at most once (C07's obligations re-verified here). Session.region_by_circuit_addr: the region returned has that far address and a circuit, None iff no region has both. Session.open_circuit: False iff no region has that address; a live circuit is kept as it is (its packet-ID translation state survives a repeated UseCircuitCode), a missing or dead one is replaced by exactly one new circuit to that address, announced to the addons once. B (bounded): "
         "sequences of valid messages of every template in both directions through the real proxy interleaved with "
         "malformed, truncated, mis-addressed, wrong-frag, banned and pre-session datagrams over two regions: exactly one "
         "emission per valid datagram, right peer, same message content; garbage disturbs nothing."),
@@ -154,6 +154,8 @@ def register(reg):
         return [("claim", ser_post + [parse_post], z3.And(res_host == host, res_port == port, res_data == payload), ["inet"])]
     reg.lemmas.append(Lemma("socks_framing_inverse", PID, framing_inverse,
                             "the header serialize emits is exactly what _parse_socks_datagram strips (address, port, payload)"))
+    from contracts import c06b_contracts
+    c06b_contracts.register_p2(reg, PID)
 
 
 from contracts import c06_native
